@@ -164,6 +164,18 @@ type Cfg struct {
 	MapRev   bool   `json:"maprev"` // reversed map iteration order
 }
 
+// BaseExt is the extension the configuration stands for: "" = the default one,
+// "-" = really no extension (object files are named by their uuid only).
+func (c Cfg) BaseExt() string {
+	switch c.Ext {
+	case "":
+		return ".json"
+	case "-":
+		return ""
+	}
+	return c.Ext
+}
+
 func (c Cfg) String() string {
 	b, _ := json.Marshal(c)
 	return string(b)
@@ -186,10 +198,7 @@ func (c Cfg) asyncParams() (thr int, timeout time.Duration) {
 // Schema builds the sod.Schema value for Create under this configuration.
 func (c Cfg) Schema(of sod.Object) sod.Schema {
 	var s sod.Schema
-	ext := c.Ext
-	if ext == "" {
-		ext = sod.DefaultExtension
-	}
+	ext := c.BaseExt()
 	switch c.Index {
 	case 0:
 		s = sod.Schema{Extension: ext}
